@@ -15,6 +15,12 @@ CHECKS["C01"] = dict(technique="property-based testing (rapid): metamorphic grou
 CHECKS["C02"] = dict(technique="property-based testing (rapid): model-based lock-step programs of scalar operations against math/big, in the default and the constantTime build",
   text="Generated programs over three scalar registers run in lock-step with a math/big model of Z_q for every scalar implementation (Ed25519 limbs, mod.Int over big.Int and over bigmod for 8 moduli x both byte orders, CIRCL, gnark, all group scalar types incl. composite-order 8q); canonical encoding and Equal are checked after every step; Pick is checked for range, repeatability and dependence on consumed bytes only. Exploration only.",
   note="Trusted: math/big, rapid. Inv/Div only for invertible divisors. Runs the same test file under -tags constantTime.", ref="4/C02")
+CHECKS["C03"] = dict(technique="property-based testing (rapid): encode/decode round trips, Equal-iff-bytes on pairs equal/different by construction, stream and hex helper agreement, value-preservation twin",
+  text="Generated points (all construction routes incl. non-normalised internals) and reduced edge scalars of every group are checked for fixed length, canonical round trip, byte-identical re-encoding, MarshalTo/UnmarshalFrom/hex helper agreement with MarshalBinary, Equal <=> identical encodings (both directions), and that encoding does not change the value (twin made through bytes, continued arithmetic). Exploration only.",
+  note="Trusted: rapid; math/big rendering of scalars. Quantifies over reduced scalars only.", ref="4/C03")
+CHECKS["C04"] = dict(technique="property-based testing (rapid) with structure-aware hostile byte generators + math/big membership models over Fp and Fp2; native go fuzzing of the decoders in the thorough tier",
+  text="Byte strings (random, boundary sizes, mutated valid encodings, structure-aware hostile inputs per decoder family) are decoded in every group: no panic, input unmodified, and for accepted values: later operations do not panic, the value is a member of the promised set according to independent models (curve equation over Fp/Fp2, r*P=O for BLS12-381 G1/G2, Euler criterion for QR-512), and its re-encoding decodes to an Equal value. Composite parsers (signatures, proofs, ciphertexts, deals) are driven with mutated honest objects and raw bytes and must return, never panic. Exploration only.",
+  note="Trusted: math/big models (self-checked against generators), rapid, Go's fuzzing engine. GT membership is not promised by the property and not checked.", ref="4/C04")
 NOT_YET = {}
 
 def main():
